@@ -22,6 +22,9 @@ def check(ctx, env):
     K.r13_45_build(ctx, prog)
     K.r13_6_packet_immutable(ctx, prog)
     R.r5_3_retransmit(ctx, prog, rule="R13.6")
+    # every emitted packet decodes: the encoder writes all four header fields (length = 0 first) whatever the buffer held
+    from . import c02
+    c02.r2_5_constants(ctx, prog, rule="R13.7")
     if env.tier == "thorough":
         from .. import witness
         witness.run(ctx, "R13.6", ["W1"])
